@@ -35,7 +35,7 @@ pub struct Cfg {
 #[serde(tag = "k")]
 pub enum Act {
     /// mode: 0 list, 1 set, 2 hll; layout 0 compact, 1 updatable
-    Hll { lg_k: u8, ty: u8, mode: u8, layout: u8, ooo: bool, coupons: Vec<u32>, more: Vec<u32> },
+    Hll { lg_k: u8, ty: u8, mode: u8, layout: u8, ooo: bool, coupons: Vec<u32>, more: Vec<u32>, #[serde(default)] legacy: bool },
     /// ver 1..=4; theta64 (MAX = exact); flags: bit0 ordered, bit1 single-item flag, bit2 java p field
     Theta { ver: u8, entries: Vec<u64>, theta: u64, flags: u8, seed: u64 },
     /// form 0 native f64, 1 native f32, 2 reference asBytes, 3 reference asSmallBytes
@@ -57,7 +57,7 @@ fn fix_coupon(c: u32) -> u32 {
     ((c >> 26).clamp(1, 63) << 26) | (c & 0x3ff_ffff)
 }
 
-fn hll_case(lg_k: u8, t: u8, mode: u8, layout: u8, ooo: bool, coupons: &[u32], more: &[u32], st: &mut RunStats) -> Result<(), Violation> {
+fn hll_case(lg_k: u8, t: u8, mode: u8, layout: u8, ooo: bool, coupons: &[u32], more: &[u32], legacy: bool, st: &mut RunStats) -> Result<(), Violation> {
     let lg_k = lg_k.clamp(4, 21);
     let t = t % 3;
     let set: BTreeSet<u32> = coupons.iter().map(|c| fix_coupon(*c)).collect();
@@ -74,7 +74,13 @@ fn hll_case(lg_k: u8, t: u8, mode: u8, layout: u8, ooo: bool, coupons: &[u32], m
         return Ok(());
     }
     let nonzero = regs.iter().filter(|&&v| v > 0).count() as f64;
-    let img = sc::hll::encode(lg_k, t, mode, &list, &regs, ooo && mode == 2, nonzero.max(1.0), layout_e);
+    let mut img = sc::hll::encode(lg_k, t, mode, &list, &regs, ooo && mode == 2, nonzero.max(1.0), layout_e);
+    if legacy && mode < 2 && layout % 2 == 0 && img.len() > 4 {
+        // early writers left the lgArr byte of compact list / set images at zero: the reader has to
+        // derive the table size from the coupon count
+        img[4] = 0;
+        st.probe("hll_sparse_image_without_lg_arr");
+    }
     st.fault(match (mode, layout % 2) {
         (0, 0) => "hll_list_compact",
         (0, _) => "hll_list_updatable",
@@ -127,6 +133,9 @@ fn hll_case(lg_k: u8, t: u8, mode: u8, layout: u8, ooo: bool, coupons: &[u32], m
     st.lib_calls += 3;
     let rs = r.verif_state();
     let all: BTreeSet<u32> = set.iter().copied().chain(more.iter().copied()).collect();
+    // a sketch holding this many coupons has left the modes that cannot hold them
+    let must_be = |n: usize| -> u8 { if n < 8 { 0 } else if lg_k < 8 || 4 * n > 3 * (1usize << (lg_k - 3)) { 2 } else { 1 } };
+    check!(rs.cur_mode >= must_be(all.len()), "C13.hll_union_mode", "{what}: union result holding {} coupons is in mode {} (promotion rule implies at least {})", all.len(), rs.cur_mode, must_be(all.len()));
     if rs.cur_mode < 2 {
         let mut got = rs.coupons.clone();
         got.sort_unstable();
@@ -152,6 +161,7 @@ fn hll_case(lg_k: u8, t: u8, mode: u8, layout: u8, ooo: bool, coupons: &[u32], m
     }
     st.lib_calls += more.len() as u64;
     let s2 = sk.verif_state();
+    check!(s2.cur_mode >= must_be(all.len()), "C13.hll_mode_after_restore", "{what}: after further updates the restored sketch holds {} coupons in mode {} (promotion rule implies at least {})", all.len(), s2.cur_mode, must_be(all.len()));
     if s2.cur_mode < 2 {
         let mut got = s2.coupons.clone();
         got.sort_unstable();
@@ -426,7 +436,7 @@ impl Scenario for C13 {
                     let coupons: Vec<u32> = (0..nc).map(|_| ((1 + rng.geometric(40)) << 26) | (rng.next_u32() & 0x3ff_ffff)).collect();
                     let mut more: Vec<u32> = (0..400).map(|_| *rng.pick(&coupons)).collect();
                     more.extend(gen_coupons(rng, lg_k, 20));
-                    acts.push(Act::Hll { lg_k, ty: rng.below(3) as u8, mode: 1, layout: rng.below(2) as u8, ooo: false, coupons, more });
+                    acts.push(Act::Hll { lg_k, ty: rng.below(3) as u8, mode: 1, layout: rng.below(2) as u8, ooo: false, coupons, more, legacy: false });
                 }
                 0..=3 => {
                     let lg_k = match rng.below(10) {
@@ -441,10 +451,21 @@ impl Scenario for C13 {
                         2 => 8 + rng.usize_below((3 * k / 32).max(1)),
                         _ => k / 4 + rng.usize_below(3 * k),
                     };
-                    let coupons = if nc == 0 { vec![] } else { gen_coupons(rng, lg_k, nc) };
+                    let mut coupons = if nc == 0 { vec![] } else { gen_coupons(rng, lg_k, nc) };
+                    // one image in eight holds exactly as many distinct coupons as a table size's 75 %
+                    // load limit (6, 12, 24, 48, ...) or one more / one fewer
+                    if lg_k >= 8 && rng.chance(1, 8) {
+                        let lim = 3usize << rng.range(1, (lg_k - 5) as u64);
+                        let want = (lim + rng.usize_below(3)).saturating_sub(1);
+                        let mut setc: BTreeSet<u32> = BTreeSet::new();
+                        while setc.len() < want {
+                            setc.insert(fix_coupon(((1 + rng.geometric(30)) << 26) | (rng.next_u32() & 0x3ff_ffff)));
+                        }
+                        coupons = setc.into_iter().collect();
+                    }
                     let nm = 1 + rng.usize_below(40);
                     let more = gen_coupons(rng, lg_k, nm);
-                    acts.push(Act::Hll { lg_k, ty: rng.below(3) as u8, mode: rng.below(3) as u8, layout: rng.below(2) as u8, ooo: rng.chance(1, 2), coupons, more });
+                    acts.push(Act::Hll { lg_k, ty: rng.below(3) as u8, mode: rng.below(3) as u8, layout: rng.below(2) as u8, ooo: rng.chance(1, 2), coupons, more, legacy: rng.chance(1, 3) });
                 }
                 4..=6 => {
                     let ne = match rng.below(6) {
@@ -497,7 +518,7 @@ impl Scenario for C13 {
             st.ticks += 1;
             st.nontrivial = true;
             match a {
-                Act::Hll { lg_k, ty, mode, layout, ooo, coupons, more } => hll_case(*lg_k, *ty, *mode, *layout, *ooo, coupons, more, st)?,
+                Act::Hll { lg_k, ty, mode, layout, ooo, coupons, more, legacy } => hll_case(*lg_k, *ty, *mode, *layout, *ooo, coupons, more, *legacy, st)?,
                 Act::Theta { ver, entries, theta, flags, seed } => theta_case(*ver, entries, *theta, *flags, *seed, st)?,
                 Act::Td { form, kk, cents, buffered, reverse } => td_case(*form, *kk, cents, buffered, *reverse, st)?,
                 Act::BloomDirty { bits, hashes, seed, items, dirty } => {
@@ -598,14 +619,14 @@ impl Scenario for C13 {
 
     fn shrink_action(&self, a: &Act) -> Vec<Act> {
         match a {
-            Act::Hll { lg_k, ty, mode, layout, ooo, coupons, more } => {
+            Act::Hll { lg_k, ty, mode, layout, ooo, coupons, more, legacy } => {
                 let mut v = vec![];
                 if coupons.len() > 1 {
-                    v.push(Act::Hll { lg_k: *lg_k, ty: *ty, mode: *mode, layout: *layout, ooo: *ooo, coupons: coupons[..coupons.len() / 2].to_vec(), more: more.clone() });
-                    v.push(Act::Hll { lg_k: *lg_k, ty: *ty, mode: *mode, layout: *layout, ooo: *ooo, coupons: coupons[coupons.len() / 2..].to_vec(), more: more.clone() });
+                    v.push(Act::Hll { lg_k: *lg_k, ty: *ty, mode: *mode, layout: *layout, ooo: *ooo, coupons: coupons[..coupons.len() / 2].to_vec(), more: more.clone(), legacy: *legacy });
+                    v.push(Act::Hll { lg_k: *lg_k, ty: *ty, mode: *mode, layout: *layout, ooo: *ooo, coupons: coupons[coupons.len() / 2..].to_vec(), more: more.clone(), legacy: *legacy });
                 }
                 if !more.is_empty() {
-                    v.push(Act::Hll { lg_k: *lg_k, ty: *ty, mode: *mode, layout: *layout, ooo: *ooo, coupons: coupons.clone(), more: more[..more.len() / 2].to_vec() });
+                    v.push(Act::Hll { lg_k: *lg_k, ty: *ty, mode: *mode, layout: *layout, ooo: *ooo, coupons: coupons.clone(), more: more[..more.len() / 2].to_vec(), legacy: *legacy });
                 }
                 v
             }
